@@ -143,7 +143,8 @@ class World:
     pass
 
 
-OPS = ['connect', 'send1', 'send5', 'sendbig', 'shutwr', 'pclose', 'swrite', 'sfill', 'sclose']
+OPS = ['connect', 'send1', 'send5', 'sendbig', 'shutwr', 'pclose', 'swrite', 'sfill', 'sclose', 'sendclose5', 'sendclose4096', 'sendshut8192']
+EXACT = bytes(range(256)) * 16            # 4096 bytes: exactly one read buffer
 BIG = bytes(range(256)) * 20 + b'tail'     # 5124 bytes: more than one read buffer
 
 
@@ -170,6 +171,13 @@ class ConnModel(e1_history.Model):
                 s['phase'], s['peer_open'] = 'open', True
             elif op == 'sendbig':
                 s['big'] = True
+            elif op in ('sendclose5', 'sendclose4096'):
+                # the peer sends and closes before the server gets to read: data and end-of-stream are waiting together
+                s['peer_open'] = False
+                s['ended'] = True
+            elif op == 'sendshut8192':
+                s['shut'] = True
+                s['ended'] = True
             elif op == 'shutwr':
                 s['shut'] = True
                 s['ended'] = True           # server sees EOF and closes
@@ -204,6 +212,8 @@ class ConnModel(e1_history.Model):
                     ok = s['phase'] == 'open' and s['peer_open'] and not s['shut']
                 elif op == 'sendbig':
                     ok = s['phase'] == 'open' and s['peer_open'] and not s['shut'] and not s['big']
+                elif op in ('sendclose5', 'sendclose4096', 'sendshut8192'):
+                    ok = s['phase'] == 'open' and s['peer_open'] and not s['shut'] and not s['ended']
                 elif op == 'shutwr':
                     ok = s['phase'] == 'open' and s['peer_open'] and not s['shut'] and not s['ended']
                 elif op == 'pclose':
@@ -259,6 +269,17 @@ class ConnModel(e1_history.Model):
                 sub.sent[c] += data
             except OSError:
                 pass            # the server has already closed: nothing was sent
+        elif name in ('sendclose5', 'sendclose4096', 'sendshut8192'):
+            data = b'hello' if name == 'sendclose5' else (EXACT if name == 'sendclose4096' else EXACT + EXACT)
+            try:
+                p.send(data)
+                sub.sent[c] += data
+            except OSError:
+                pass
+            try:
+                p.shutdown(socket.SHUT_WR) if name == 'sendshut8192' else p.close()
+            except OSError:
+                pass
         elif name == 'shutwr':
             try:
                 p.shutdown(socket.SHUT_WR)
